@@ -24,10 +24,10 @@ from common import cstr, clist, cfloat, copt, cpair, cz
 THEOREMS = ['C15_tokens_of_appended_options', 'C15_keywords_prefix',
             'C15_keywords_later_wins', 'C15_like_chain_text',
             'C15_like_equals_expanded', 'C15_like_imp_refuted',
-            'C15_like_mat_void_refuted', 'C15_like_re_recognises',
+            'C15_like_mat_void', 'C15_like_re_recognises',
             'C15_split_like_card', 'C15_split_then_like_re',
             'C15_keywords_later_wins_any_scalar', 'C15_chain_depth',
-            'C15_like_in_parse_all']
+            'C15_like_in_parse_all', 'C15_replace_like_card']
 TRUSTED = [
     'hand-written model coq/C15/Model.v (modelled, tied by execution only)',
     'environment of the model, filled per deck from the repository\'s own '
@@ -52,7 +52,6 @@ HEADER = ('From Coq Require Import List NArith ZArith Bool String Ascii '
           'C15.Model C15.Exec.\nOpen Scope string_scope.\n')
 
 KNOWN_CLASS = 'like_but_imp_max'
-VOID_CLASS = 'like_but_mat_void'
 
 
 # ---------------------------------------------------------------------------
@@ -339,7 +338,6 @@ def sweep_deck(res, deck, text, rng, do_points):
     expanded = gen.expand(deck)
     text_exp = gen.render(expanded)
     dec = gen.imp_decreasing_cells(deck)
-    void = gen.void_mat_cells(deck)
     conv_like = impl.convert(text, keep_stdout=False)
     conv_exp = impl.convert(text_exp, keep_stdout=False)
     if conv_like.ok != conv_exp.ok or \
@@ -349,8 +347,6 @@ def sweep_deck(res, deck, text, rng, do_points):
     elif conv_like.ok and strip_header(conv_like.text) != \
             strip_header(conv_exp.text):
         cls = None
-        if void and not dec:
-            cls = void_signature(deck, text, text_exp, void)
         if dec:
             conv_max = impl.convert(gen.render(gen.expand(deck, 'max')),
                                     keep_stdout=False)
@@ -362,9 +358,7 @@ def sweep_deck(res, deck, text, rng, do_points):
                          + (f' (cells {dec}: BUT IMP lower than the '
                             'inherited card importance)'
                             if cls == KNOWN_CLASS else '')
-                         + (f' (cells {void}: BUT MAT=0 with an inherited '
-                            'density)' if cls == VOID_CLASS else ''),
-                         cls))
+                         , cls))
     # parsed cells, field by field
     obs_like = ImplDeck(text)
     obs_exp = ImplDeck(text_exp)
@@ -382,12 +376,6 @@ def sweep_deck(res, deck, text, rng, do_points):
                 if all(cells[k].importance ==
                        gen.chain_max_importance(by_id, k) for k in dec):
                     cls = KNOWN_CLASS
-            if void and not dec and not diff_cells(obs_like, obs_exp,
-                                                   ignore_density=void):
-                cells = obs_like.result[1]
-                if all(cells[k].materialID == '0' and
-                       cells[k].density is not None for k in void):
-                    cls = VOID_CLASS
             failures.append(('parsed', 'parsed cells of the LIKE deck differ '
                              f'from its explicit expansion: {diffs[:4]}', cls))
         # generator's own reading of get_cells and of the geometry
@@ -413,22 +401,6 @@ def sweep_deck(res, deck, text, rng, do_points):
     if do_points and conv_like.ok and conv_exp.ok:
         failures.extend(points_check(deck, expanded, conv_like, conv_exp, rng))
     return failures, obs_like
-
-
-def void_signature(deck, text, text_exp, void):
-    '''VOID_CLASS when the parsed cells of the two decks differ only by the
-    density kept on the cells made void by BUT MAT=0.'''
-    obs_like, obs_exp = ImplDeck(text), ImplDeck(text_exp)
-    if obs_like.setup_error is not None or obs_exp.setup_error is not None \
-            or obs_like.result[0] != 'ok' or obs_exp.result[0] != 'ok':
-        return None
-    if diff_cells(obs_like, obs_exp, ignore_density=void):
-        return None
-    cells = obs_like.result[1]
-    if all(cells[k].materialID == '0' and cells[k].density is not None
-           for k in void):
-        return VOID_CLASS
-    return None
 
 
 def points_check(deck, expanded, conv_like, conv_exp, rng):
@@ -480,6 +452,10 @@ EDGE_BUT = [
     'trcl=(1 0 0 1 0 0 0 1 0 0 0 1)', '*trcl=(1 0 0 0 90 90 90 0 90 90 90 0)',
     '*trcl=(1 2 3 0 90 90 90 0 90 90 90 0 1)', 'trcl=(1 2 3) trcl=(4 5 6)',
     'trcl=(1 x 3)', '*trcl=(1 2 3 x)', 'trcl',
+    '*trcl=(1 2 3 0 90 90 90 0 90 90 90 0 -1)',
+    '*fill=2 (0 0 0 30 60 90 120 30 90 90 90 0 -1)',
+    '*fill=2 (0 0 0 30 60 90 120 30 90 90 90 0 1)', 'mat=0', 'MAT=0 rho=-1.0',
+    'mat=00', 'mat=2.0', 'mat=x rho=-1', 'u=-4 mat=0',
     'fill=2 (9)', 'fill=2 (1 2)', 'fill=x', 'fill=2.0', 'fill=2 (1.5 0 0)',
     'fill=2 (1 0 0 1 0 0 0 1 0 0 0 1)', 'fill=1 fill=2 (1 0 0)',
     'fill=2 (1 0 0) fill=1', '*fill=2 (0 0 0 30 60 90 120 30 90 90 90 0)',
@@ -547,22 +523,6 @@ WITNESS_EXPANDED = WITNESS.replace('2 like 1 but imp:n=0 trcl=(5 0 0)',
                                    '2 1 -1.0 -1 imp:n=0 trcl=(5 0 0)')
 
 
-WITNESS_VOID = WITNESS.replace('2 like 1 but imp:n=0 trcl=(5 0 0)',
-                               '2 like 1 but mat=0 trcl=(5 0 0)')
-WITNESS_VOID_EXPANDED = WITNESS.replace('2 like 1 but imp:n=0 trcl=(5 0 0)',
-                                        '2 0 -1 imp:n=1 trcl=(5 0 0)')
-
-
-def witness_void_fails():
-    a = impl.convert(WITNESS_VOID, keep_stdout=False)
-    b = impl.convert(WITNESS_VOID_EXPANDED, keep_stdout=False)
-    if not (a.ok and b.ok):
-        return True, f'{a} / {b}'
-    same = strip_header(a.text) == strip_header(b.text)
-    names = [n for n, _ in impl.T4File(a.text).geomcomp]
-    return not same, f'GEOMCOMP names of the LIKE file: {names}'
-
-
 _TAIL = ('\n1 so 1\n2 s 0 0 0 1.4\n5 s 0.4 0.2 0.1 0.5\n9 so 30\n\n'
          'tr3 0 6 0\n*tr4 0 -6 0 30 60 90 120 30 90 90 90 0\n'
          'm1 1001 1\nm2 8016 1\nm3 26056 1\n')
@@ -574,6 +534,14 @@ _SHARED = ('10 1 -1.0 -1 imp:n=1\n'
            '41 3 -3.0 -5 u=2 imp:n=1\n42 0 5 u=2 imp:n=1\n'
            '90 0 -9 #10 #20 #11 #12 #13 #21 #22 imp:n=1\n91 0 9 imp:n=0\n')
 CORPUS = [
+    ('BUT MAT=0 makes a void copy (fixed by ac9102a)',
+     '11 like 10 but mat=0 trcl=(6 0 0)\n12 LIKE 11 BUT TRCL=(12 0 0)\n'
+     '13 like 12 but mat=2 rho=-2.0 trcl=(-6 0 0)\n'
+     '21 like 20 but trcl=(0 0 -6)\n22 like 20 but trcl=(0 0 12)\n',
+     '11 0 -1 imp:n=1 trcl=(6 0 0)\n12 0 -1 imp:n=1 trcl=(12 0 0)\n'
+     '13 2 -2.0 -1 imp:n=1 trcl=(-6 0 0)\n'
+     '21 0 -2 fill=1 (0.1 0 0) imp:n=1 trcl=(0 0 -6)\n'
+     '22 0 -2 fill=1 (0.1 0 0) imp:n=1 trcl=(0 0 12)\n'),
     ('chain of three, one key each',
      '11 like 10 but trcl=(6 0 0)\n12 LIKE 11 BUT MAT=2 RHO=-2.5 TRCL=(12 0 0)\n'
      '13 Like 12 But *TRCL=(-6 0 0 30 60 90 120 30 90 90 90 0) imp:n=2\n'
@@ -658,16 +626,6 @@ def run(res, tier, seed, proofs_ok):
                       {'input': {'deck': WITNESS,
                                  'expanded': WITNESS_EXPANDED}},
                       cls=KNOWN_CLASS, found_input=True)
-
-    fails, detail = witness_void_fails()
-    if fails:
-        res.violation('impl-violation',
-                      'LIKE 1 BUT MAT=0 (base material 1, density -1.0) is '
-                      'not converted as the void card it abbreviates: '
-                      + detail,
-                      {'input': {'deck': WITNESS_VOID,
-                                 'expanded': WITNESS_VOID_EXPANDED}},
-                      cls=VOID_CLASS, found_input=True)
 
     for name, a_text, b_text, detail in corpus_failures():
         res.violation('impl-violation',
